@@ -682,6 +682,7 @@ func (x *ext4Run) step(o core.Op) *core.Violation {
 					break // no inode or no room for the entry
 				}
 				data := core.PatternBytes(uint64(o.A)+uint64(x.seq), ladder[rung]+int64(i%3))
+				x.lastErr = false // (it is only cleared at the start of a step: one refusal must not count for every later file)
 				if v := x.writeFile(p, 0, data, false); v != nil {
 					return v
 				}
@@ -724,15 +725,19 @@ func (x *ext4Run) step(o core.Op) *core.Violation {
 				return v
 			}
 		}
+		// (a directory of its own, made while there is room: its one block fills up with entries below)
+		if v := x.step(core.Op{K: "mkdir", P: "sq"}); v != nil {
+			return v
+		}
 		if v := x.step(core.Op{K: "fillup", A: o.A}); v != nil {
 			return v
 		}
-		if n := m.get("fill"); n == nil || !n.dir || n.tainted {
+		if n := m.get("sq"); n == nil || !n.dir || n.tainted {
 			return nil
 		}
-		for i := 0; i < 300; i++ {
+		for i := 0; i < 1200; i++ {
 			x.seq++
-			ok, v := x.createFile(fmt.Sprintf("fill/e%04d", x.seq))
+			ok, v := x.createFile(fmt.Sprintf("sq/e%04d", x.seq))
 			if v != nil {
 				return v
 			}
@@ -744,7 +749,7 @@ func (x *ext4Run) step(o core.Op) *core.Violation {
 		if v := x.step(core.Op{K: "remove", P: "SQ1.BLK"}); v != nil {
 			return v
 		}
-		for _, sub := range []core.Op{{K: "mkdir", P: "fill/sqdir"}, {K: "symlink", P: "fill/sqlnk", B: 200}, {K: "write", P: "fill/sqnew", A: 0, B: 10, C: o.A}} {
+		for _, sub := range []core.Op{{K: "mkdir", P: "sq/sqdir"}, {K: "symlink", P: "sq/sqlnk", B: 200}, {K: "write", P: "sq/sqnew", A: 0, B: 10, C: o.A}} {
 			if v := x.step(sub); v != nil {
 				return v
 			}
@@ -977,6 +982,10 @@ func e2fsckImage(d *simdisk.Disk, start, size int64) (int, string, error) {
 		return -1, "", err
 	}
 	defer os.Remove(img)
+	if keep := os.Getenv("VERIF_KEEPIMG"); keep != "" {
+		// (diagnosis: the image handed to the checker last stays behind under this name)
+		_ = d.DumpTo(keep, start, size)
+	}
 	cmd := exec.Command("/usr/sbin/e2fsck", "-f", "-n", img)
 	out, err := cmd.CombinedOutput()
 	code := 0
